@@ -66,7 +66,8 @@ deriving DecidableEq, Repr
 inductive Exc
   | keyError | responseError (status : Nat) | sidError | connError | connTimeout
   | valueError | overflowError
-  | other            -- any other exception class (never produced by the model)
+  | parseError       -- xml ParseError (C11: replay of a malformed early NOTIFY; never produced by the registry model)
+  | other            -- any other exception class (never produced by the registry model)
 deriving DecidableEq, Repr
 
 inductive Result
@@ -98,7 +99,7 @@ deriving DecidableEq, Repr
 /-- `timedelta(seconds=n)` is representable: |days| ≤ 999999999 where days = ⌊n / 86400⌋ -/
 def tdOk (n : Int) : Bool := decide (-86399999913600 ≤ n) && decide (n ≤ 86399999999999)
 
-def parseTimeoutHdr : Option Str → TmoParse
+def parseTimeoutRaw : Option Str → TmoParse
   | none => .keep
   | some v =>
     if v ≠ secondInfinite ∧ isInfixB secondPrefix v = true then
@@ -106,6 +107,14 @@ def parseTimeoutHdr : Option Str → TmoParse
       | none => .valueError
       | some n => if tdOk n then .set n else .overflowError
     else .keep
+
+/-- with the conversion inside `try … except (ValueError, OverflowError)` (`guarded`, read from the source) an
+    unparsable granted TIMEOUT keeps the requested timeout; without it the exception escapes -/
+def parseTimeoutHdr (guarded : Bool) (th : Option Str) : TmoParse :=
+  match parseTimeoutRaw th with
+  | .valueError => if guarded then .keep else .valueError
+  | .overflowError => if guarded then .keep else .overflowError
+  | p => p
 
 /-! ### state and calls -/
 
@@ -152,7 +161,7 @@ def subscribeFinish (rt : Routing) (svc : Nat) (timeout : Int) : Reaction → Ro
     match sid with
     | none => (rt, .exc .sidError)
     | some s =>
-      match parseTimeoutHdr th with
+      match parseTimeoutHdr Gen.C09Gena.subscribeTimeoutGuarded th with
       | .valueError => (rt, .exc .valueError)
       | .overflowError => (rt, .exc .overflowError)
       | .keep => (set rt s svc, .sub s timeout)
@@ -173,7 +182,7 @@ def renewFinish (rt : Routing) (svc : Nat) (sid : Str) (timeout : Int) (sid' : O
     Routing × Result :=
   let sid2 := renewedSid sid sid'
   let rt1 := if sid2 ≠ sid then erase rt sid else rt
-  match parseTimeoutHdr th with
+  match parseTimeoutHdr Gen.C09Gena.renewTimeoutGuarded th with
   | .valueError => (rt1, .exc .valueError)
   | .overflowError => (rt1, .exc .overflowError)
   | .keep => (set rt1 sid2 svc, .sub sid2 timeout)
